@@ -17,7 +17,8 @@ ASSUMPTIONS = [
     "clause) the CNF is taken to be unsatisfiable",
     "boolean numbering of the named variables is read from IntVar.bool_vars",
     "unnamed variables are encoded like named ones (compared on all declared variables; the implementation's decode "
-    "is compared on the named ones); empty domains (lb > ub) are outside the generator (excluded region)",
+    "is compared on the named ones); empty domains (lb > ub) are generated (the encoder must then produce an "
+    "unsatisfiable formula), the theorems carry the hypothesis lb <= ub",
     "cumulative is generated with durations, demands and capacity >= 0 (the encoder's minimal-subset argument "
     "assumes non-negative demands)",
 ]
@@ -67,6 +68,8 @@ def edge_cases():
         ([[0, 2], [1, 3]], [["sumeq", [0, 0, 1], 5]]),
         ([[0, 2], [0, 2]], [["alldiff", [0, 0]]]),
         ([[0, 2], [0, 2]], []),
+        ([[3, 2], [0, 1]], []),  # empty domain
+        ([[3, 2], [0, 1], [0, 1]], [["sumle", [0, 1, 2], 5]]),
     ]
     for vars_, cons in ms:
         yield {"vars": [list(v) for v in vars_], "cons": cons, "hints": None, "limit": 1, "solver": "sat"}
@@ -193,6 +196,17 @@ def run(ctx, budget):
     run_cases(ctx, cases)
     for _ in range(3 * budget):
         run_cases(ctx, gen_cases(ctx.rng, 1000, big=(ctx.tier == "thorough")))
+    summarise(ctx)
+
+
+def summarise(ctx):
+    """Aggregate the (kind:shape | solver) table to (kind | solver) for a quick look."""
+    agg = {}
+    for k, v in ctx.cov.get("coverage_table", {}).items():
+        tag, sv = k.split("|")
+        kind = ":".join(tag.split(":")[:2]) if tag.startswith("rel") else tag.split(":")[0]
+        agg[f"{kind}|{sv}"] = agg.get(f"{kind}|{sv}", 0) + v
+    ctx.cov["coverage_kinds"] = dict(sorted(agg.items()))
 
 
 def replay(ctx, body):
